@@ -111,11 +111,14 @@ def servedRows : List Page → List Row
   | (r, none) :: _ => r
   | (r, some _) :: t => r ++ servedRows t
 
+/-- The server's answer to the `k`-th successful fetch (beyond the script: an empty last page). -/
+def pageAt (pages : List Page) (k : Nat) : Page := pages[k]?.getD ([], none)
+
 /-- The paging state request number `k` (0-based) has to carry: none for the first, otherwise the one
 returned with page `k-1`. -/
 def stateBefore (pages : List Page) : Nat → Option PState
   | 0 => none
-  | k + 1 => (pages.getD k ([], none)).2
+  | k + 1 => (pageAt pages k).2
 
 /-- All rows of the first `k` pages. -/
 def rowsBefore (pages : List Page) (k : Nat) : List Row := ((pages.take k).map Prod.fst).flatten
@@ -158,7 +161,9 @@ def stepProd (s : St) : St :=
       { s' with todo := s.todo.tail, served := s.served + 1, pc := .send (.page p.1) p.2 }
   | .send it nx =>
     match s.rx with
-    | .dropped => { s with pc := .done }          -- 669-672 / 235-238: `send` failed
+    | .dropped =>
+      -- 669-672 / 235-238: `send` failed, the loop returns (ghost: the pages never asked for)
+      { s with pc := .done, lost := match nx with | some _ => servedRows s.todo | none => s.lost }
     | _ =>
       match s.chan with
       | some _ => s                               -- no capacity: still waiting
@@ -209,8 +214,21 @@ def pcRank : PC → Nat
   | .send _ none => 2
   | .done => 0
 
+def itemRows : Item → Nat
+  | .page r => r.length
+  | .err _ => 0
+
+def pcItemRows : PC → Nat
+  | .send it _ => itemRows it
+  | _ => 0
+
+def todoRows : List Page → Nat
+  | [] => 0
+  | p :: t => p.1.length + todoRows t
+
 def measure (s : St) : Nat :=
-  s.faults.length + 5 * s.todo.length + pcRank s.pc + (if s.chan.isSome then 1 else 0) + s.cur.length
+  s.faults.length + 5 * s.todo.length + todoRows s.todo + pcRank s.pc + pcItemRows s.pc
+    + (match s.chan with | some it => 1 + itemRows it | none => 0) + s.cur.length
     + (match s.rx with | .dropped => 0 | _ => 2) + (if s.ended then 0 else 1)
 
 /-! ### Executable schedules used by the line-protocol driver -/
@@ -234,7 +252,8 @@ the drop the producer runs until it stops. -/
 def runDrop (eagerProd : Bool) (k : Nat) : Nat → St → St
   | 0, s => s
   | n + 1, s =>
-    if s.ctorErr.isSome || s.ended || !s.errs.isEmpty then s
+    if s.ctorErr.isSome || s.ended then s
+    else if !s.errs.isEmpty then runDrop eagerProd k n (stepPoll s)   -- the harness polls once more
     else if s.rx != .alive then runDrop eagerProd k n (stepProd s)
     else
       let s1 := if eagerProd then prodToQuiescence (measure s + 1) s else s
@@ -262,10 +281,36 @@ def connAttempts (afterUnprepared : Bool) : List Char → List Attempt
     if afterUnprepared then [.fail "DbError:9472"] else .retry :: connAttempts true rest
   | 'o' :: _ => [.fail "DbError:4097"]
   | 'r' :: _ => [.fail "DbError:4608"]
+  | 'R' :: _ => [.fail "DbError:4608"]
   | 's' :: _ => [.fail "DbError:0"]
   | 'c' :: _ => [.fail "Broken"]
   | 'T' :: _ => [.fail "Timeout"]
   | 'v' :: _ => [.fail "UnexpectedResponse"]
   | _ :: rest => connAttempts afterUnprepared rest
+
+/-! ### The session pager's attempts (`Session::execute_iter`) on a ONE-node cluster, default profile
+
+`PagingExecutor::fetch_one_page` (303-370) runs the execution core with the statement's retry policy
+(here `DefaultRetryPolicy`, default.rs 57-170) over the plan "previous coordinator, then the load
+balancing plan without it" - one target on a one-node cluster, so `RetryNextTarget` (overloaded, server
+error, broken connection, unavailable) exhausts the plan and the last error is final. The one decision
+that re-sends the page request is `RetrySameTarget` for a ReadTimeout with enough replies and no data
+(`R`), at most once per page (a new retry session per page). UNPREPARED is handled inside an attempt as
+for the single-connection pager. A non-Rows RESULT (`v`) is an error on pages 2+ (process_next_page
+490-494) but on the FIRST page it yields an empty stream without error (process_first_page 436-454) -
+the same transition as an ignored error, so it is represented by `Attempt.ignore`. -/
+def sessAttempts (firstPage afterUnprepared readRetried : Bool) : List Char → List Attempt
+  | [] => [.ok]
+  | 'u' :: rest =>
+    if afterUnprepared then [.fail "DbError:9472"] else .retry :: sessAttempts firstPage true readRetried rest
+  | 'R' :: rest =>
+    if readRetried then [.fail "DbError:4608"] else .retry :: sessAttempts firstPage false true rest
+  | 'o' :: _ => [.fail "DbError:4097"]
+  | 'r' :: _ => [.fail "DbError:4608"]
+  | 's' :: _ => [.fail "DbError:0"]
+  | 'c' :: _ => [.fail "Broken"]
+  | 'T' :: _ => [.fail "Timeout"]
+  | 'v' :: _ => if firstPage then [.ignore] else [.fail "UnexpectedResponse"]
+  | _ :: rest => sessAttempts firstPage afterUnprepared readRetried rest
 
 end ScyllaVerif.Pager
